@@ -39,6 +39,9 @@ type DialScenario struct {
 	LogAuth   bool              `json:"log_auth,omitempty"`
 	BadCert   string            `json:"bad_cert,omitempty"` // wrongname | untrusted: what a "tlsbad" handshake presents
 	ThenReset bool              `json:"then_reset,omitempty"` // Client.Reset() after a successful dial
+	// CustomAuth: the mechanism is handed over as ONE smtp.Auth value (WithSMTPAuthCustom / SetSMTPAuthCustom):
+	// the same value serves every dial of the Client
+	CustomAuth bool `json:"custom_auth,omitempty"`
 	TLS12     bool              `json:"tls12,omitempty"`      // the server only speaks TLS 1.2
 	sasl      *saslServer
 	Timeout   time.Duration     `json:"-"`
@@ -219,7 +222,14 @@ func RunDial(sc *DialScenario) *DialRun {
 	} else {
 		opts = append(opts, mail.WithTLSConfig(tlsCfg))
 	}
-	if pick() {
+	if sc.CustomAuth {
+		a := directAuth(sc)
+		if pick() {
+			later = append(later, func(c *mail.Client) { c.SetSMTPAuthCustom(a) })
+		} else {
+			opts = append(opts, mail.WithSMTPAuthCustom(a))
+		}
+	} else if pick() {
 		later = append(later, func(c *mail.Client) { c.SetSMTPAuth(mail.SMTPAuthType(sc.AuthType)) })
 	} else {
 		opts = append(opts, mail.WithSMTPAuth(mail.SMTPAuthType(sc.AuthType)))
